@@ -236,15 +236,21 @@ def gen_dfxp(rng, tag, text=None, nlang=None):
 SAMI_LANGS = [('ENCC', 'en-US'), ('FRCC', 'fr-FR'), ('DECC', 'de-DE'), ('ESCC', 'es-ES')]
 
 
-def gen_sami(rng, tag, text=None, nlang=None, same_sync_twice=0.1):
+def gen_sami(rng, tag, text=None, nlang=None, same_sync_twice=0.1, inline_lang=0.15):
     feats = set()
     nlang = nlang or rng.choice([1, 1, 2, 3])
     classes = rng.sample(SAMI_LANGS, nlang)
+    if rng.random() < inline_lang:
+        # one language is given by an inline lang= attribute (two-letter code) instead of a class rule
+        code = rng.choice(['it', 'nl', 'sv'])
+        classes[rng.randrange(len(classes))] = (None, code)
+        feats.add('inline-lang-attribute')
     up = rng.random() < 0.6
     T = (lambda s: s.upper()) if up else (lambda s: s.lower())
     css = 'P { font-family: Arial; }\n'
     for cls, lang in classes:
-        css += f'.{cls} {{ Name: {lang}; lang: {lang}; SAMI_Type: CC; }}\n'
+        if cls is not None:
+            css += f'.{cls} {{ Name: {lang}; lang: {lang}; SAMI_Type: CC; }}\n'
     doc = (f'<{T("sami")}>\n<{T("head")}>\n<{T("title")}>t</{T("title")}>\n'
            f'<{T("style")} TYPE="text/css">\n<!--\n{css}-->\n</{T("style")}>\n</{T("head")}>\n<{T("body")}>\n')
     nsync = rng.randrange(1, 9)
@@ -275,7 +281,11 @@ def gen_sami(rng, tag, text=None, nlang=None, same_sync_twice=0.1):
                     events[lang].append((ms, [inline.display(ln, 'sami') for ln in lines], lines))
                 if k == 2:
                     feats.add('two-p-one-sync')
-                doc += f'<{T("p")} {rng.choice(["Class", "class"])}={cls}>{body}' + (f'</{T("p")}>' if close_p else '')
+                pattr = f'{rng.choice(["Class", "class"])}={cls}' if cls is not None else \
+                    f'{rng.choice(["lang", "Lang"])}={rng.choice(["", chr(34)])}{lang}'
+                if pattr.count('"') == 1:
+                    pattr += '"'
+                doc += f'<{T("p")} {pattr}>{body}' + (f'</{T("p")}>' if close_p else '')
                 wrote = True
         doc += (f'</{T("sync")}>' if close_p or rng.random() < 0.5 else '') + '\n'
     doc += f'</{T("body")}>\n</{T("sami")}>\n'
